@@ -6,6 +6,11 @@ COMMON_NOTE = ("Trusted: Lean 4.33 kernel; axioms limited to propext/Quot.sound/
                "lean/MoreExec/Props. Correspondence covers the explored schedules only; the universal claim is about the model.")
 
 PROPS = {
+    "C16": dict(
+        technique="Lean 4 proofs by structural induction over the argument list (any arity) on a model of f_apply's nested flat-maps and fn_runner closures: argument order / keyword binding, called iff all inputs succeeded, failure comes from an input; differential of the real f_apply against the model under a deterministic scheduler",
+        level_text="Machine-checked theorems for every arity: the function finally receives the positional arguments in their original order and each keyword under its own name and nothing else; it is called exactly when the function future and all argument futures succeeded; a failed output carries the exception of one of the failed inputs. The hand-written model mirrors apply.py's recursion; it is tied to the code by running the real f_apply (arities 0-5 x 0-3 keywords, failing/cancelled inputs at every position, all completion orders over 1-3 threads) and comparing calls and outcomes (by identity) with the model's executable definition, next to direct property monitors.",
+        design_ref="DESIGN.md section 6 C16",
+        level_note="Modelled, not verified: the map/flat_map steps are C13's model; schedule independence is inherited from C13/C02; hand-written model (differential tie only)."),
     "C13": dict(
         technique="Lean 4 proofs by exhaustive case analysis over a functional model of MapFuture/FlatMapFuture resolution (spec equality, call discipline, identity, composition) for arbitrary user functions; differential of the real MapExecutor/FlatMapExecutor/f_map/f_flat_map against the model over the full behaviour cross product under a deterministic scheduler",
         level_text="Machine-checked theorems for every input outcome and every total behaviour of fn/error_fn: the resolution procedure equals the property's spec, fn and error_fn are each called at most once and only for their own case with the input's own value/exception, omitted functions are the identity and keep the exception object, map stages compose, flat_map of a non-future is TypeError. The hand-written model is tied to map.py/flat_map.py by running the real code on the full cross product of behaviours, forms and timings and comparing outcome identity and call arguments with the model's executable definition.",
